@@ -5,6 +5,7 @@ import (
 	"go/ast"
 	"go/token"
 	"go/types"
+	"os"
 	"strings"
 
 	"golang.org/x/tools/go/ssa"
@@ -326,6 +327,9 @@ func (e *Engine) havocAlive(st *State) {
 }
 
 func (e *Engine) havocAllHeapExcept(st *State, except map[string]bool) {
+	if os.Getenv("VERIF_DEBUG_HAVOC") != "" {
+		fmt.Fprintf(os.Stderr, "havocAllHeapExcept %v epoch=%d prevExcept=%v\n", sortedKeys(except), st.havocEpoch, sortedKeys(st.havocExcept))
+	}
 	e.havocAlive(st)
 	if st.havocEpoch == 0 {
 		st.havocExcept = copyMap(except)
@@ -960,6 +964,20 @@ func (e *Engine) evalLoc(env *Env, x ast.Expr) []Loc {
 				if t == nil {
 					continue // type not loaded in this run: it has no heap arrays here
 				}
+				// []T: the elements of every slice/array of T; map[K]V: the content of every such map
+				if sl, ok := t.Underlying().(*types.Slice); ok {
+					if isStruct(sl.Elem()) {
+						env.fail("allbut: slices of struct values are not supported (%s)", exprString(a))
+					}
+					except[e.d.ElemHeapT(sl.Elem())] = true
+					continue
+				}
+				if mp, ok := t.Underlying().(*types.Map); ok {
+					dom, val, _ := e.d.MapHeaps(e.d.SortOf(mp.Key()), e.d.SortOf(mp.Elem()))
+					except[dom] = true
+					except[val] = true
+					continue
+				}
 				if !isStruct(t) {
 					env.fail("allbut: %s is not a struct type", exprString(a))
 				}
@@ -1493,6 +1511,17 @@ func (e *Engine) doBuiltin(st *State, b *ssa.Builtin, call *ssa.CallCommon, args
 		if dst.S == SBytes {
 			n := fmt.Sprintf("(ite (< (blen %s) (blen %s)) (blen %s) (blen %s))", dst.T, src.T, dst.T, src.T)
 			nv := term(n, SInt, intT)
+			if dst.K == KTerm && dst.Heap != "" && dst.Base != "" && src.S == SBytes {
+				// the destination is a slice of a byte ARRAY: the copy writes the array's elements lo .. lo+n
+				cur := st.heapGet(dst.Heap)
+				na := e.freshConst(st, "cpa", "(Array Int Int)")
+				lo := dst.Idx
+				st.assume(fmt.Sprintf("(forall ((i Int)) (! (= (select %s i) (ite (and (<= %s i) (< i (+ %s %s))) (bat %s (- i %s)) (select (select %s %s) i))) :pattern ((select %s i))))",
+					na, lo, lo, n, src.T, lo, cur, dst.Base, na))
+				e.heapStore(st, dst.Heap, dst.Base, na)
+				st.note("copy into a slice of a byte array: modelled as a write of the array elements")
+				return nv
+			}
 			e.bytesWritten(st, "copy into []byte")
 			return nv
 		}
